@@ -39,12 +39,18 @@ if os.path.exists(EXTRA):
     for k, v in json.load(open(EXTRA)).items():
         CLAIMS[k] = tuple(v)
 
+# sentences describing monitors added in later rounds, appended to the level text
+ADD = os.path.join(V, "manifest_claims_add.json")
+CLAIM_ADD = json.load(open(ADD)) if os.path.exists(ADD) else {}
+
 checks = []
 for p in props:
     i = p["id"]
     if i not in CLAIMS:
         continue
     cat, text, note, tech, ref = CLAIMS[i]
+    if i in CLAIM_ADD:
+        text = text.rstrip() + " Added in later rounds: " + CLAIM_ADD[i]
     plan = json.load(open(os.path.join(V, "harness", i, "plan.json")))
     assert plan["level"] == cat, (i, plan["level"], cat)
     checks.append({
